@@ -156,7 +156,7 @@ def case(rec, pvl, dialect, key):
 
 def shard(i, n, tier, seed, rec, hb):
     pvl = common.import_pvl()
-    per = 4000 if tier == "quick" else 100000
+    per = 4000 if tier == "quick" else 800000
     for dialect in DIALECTS:
         for j in range(i, per, n):
             hb.beat()
